@@ -462,8 +462,144 @@ def o195(ctx):
         raise Unsupported("no call of add_chain_prefix with class_max found in ribana")
 
 
+def o198(ctx):
+    """a finished chain that finds a chain to append to (at its first particle) AND a chain to put in front of (at its last particle) may
+    use both connections only if they lead to two different chains; if both lead to the same chain (in particular to the same particle) only
+    the closer one is kept.  Decided as a decision table over the block's atomic tests, for chains of one and of several particles alike."""
+    import itertools
+    from sa.dectable import Table
+    q = RB + "trace_chains"
+    m, fn = ctx.prog.func(q)
+    ctx.touched(q)
+    src = lambda n: " ".join(ast.unparse(n).split())
+    calls = [n for n in ast.walk(fn) if isinstance(n, ast.Assign) and isinstance(n.value, ast.Call) and src(n.value.func) == "get_nn_dist"
+             and isinstance(n.value.args[-1], ast.Constant) and n.value.args[-1].value is False
+             and isinstance(n.targets[0], ast.Tuple) and len(n.targets[0].elts) == 2 and all(isinstance(e, ast.Name) for e in n.targets[0].elts)]
+    if len(calls) != 2:
+        raise Unsupported("connection searches of trace_chains not recognised", fn)
+    blk = None
+    p_ = m.parents.get(calls[0])
+    for fld in ("body", "orelse"):
+        b = getattr(p_, fld, None)
+        if isinstance(b, list) and any(x is calls[0] for x in b) and any(x is calls[1] for x in b):
+            blk = b
+    if blk is None:
+        raise Unsupported("the two connection searches are not in one block", calls[0])
+    head = [c for c in calls if "exit" in src(c.value.args[0])]
+    tail = [c for c in calls if "entry" in src(c.value.args[0])]
+    if len(head) != 1 or len(tail) != 1:
+        raise Unsupported("which search looks for the chain to append to / to put in front of is not recognised", calls[0])
+    h, hd = (e.id for e in head[0].targets[0].elts)
+    t, td = (e.id for e in tail[0].targets[0].elts)
+    start = max(blk.index(calls[0]), blk.index(calls[1])) + 1
+    stop = next((i_ for i_ in range(start, len(blk)) if any(isinstance(x, ast.Call) and src(x.func) in ("add_chain_suffix", "add_chain_prefix")
+                                                              for x in ast.walk(blk[i_]))), len(blk))
+    body = blk[start:stop]
+    # names holding the object number of a target particle: assigned from a lookup of the chain-number column
+    chain_no = {st.targets[0].id for st in ast.walk(ast.Module(body=body, type_ignores=[])) if isinstance(st, ast.Assign)
+                and isinstance(st.targets[0], ast.Name) and "store_idx1" in src(st.value)}
+
+    def atom_of(text):
+        norm = text.replace(" ", "")
+        if norm in (f"{h}=={t}", f"{t}=={h}"):
+            return "same_particle"
+        if norm in (f"{h}!={t}", f"{t}!={h}"):
+            return ("same_particle", True)
+        for v_, name in ((h, "head_found"), (t, "tail_found")):
+            if norm in (f"{v_}!=-1", f"-1!={v_}", f"{v_}>=0", f"{v_}>-1"):
+                return name
+            if norm in (f"{v_}==-1", f"-1=={v_}", f"{v_}<0"):
+                return (name, True)
+        if norm in (f"{hd}<={td}", f"{td}>={hd}"):
+            return "head_closer_or_tie"
+        if norm in (f"{hd}>{td}", f"{td}<{hd}"):
+            return ("head_closer_or_tie", True)
+        if norm.endswith("==1") and (".shape[0]" in norm or norm.startswith("len(")):
+            return "single_particle_chain"
+        if norm.endswith("!=1") and (".shape[0]" in norm or norm.startswith("len(")) or norm.endswith(">1") and (".shape[0]" in norm or norm.startswith("len(")):
+            return ("single_particle_chain", True)
+        mm_ = [x for x in norm.replace("!=", "==").split("==")]
+        if len(mm_) == 2 and set(mm_) <= chain_no and mm_[0] != mm_[1]:
+            return "same_chain" if "==" in norm and "!=" not in norm else ("same_chain", True)
+        return None
+
+    cur = {}
+
+    def marker_of(st):
+        if isinstance(st, ast.Assign) and len(st.targets) == 1 and isinstance(st.targets[0], ast.Name) and src(st.value) in ("-1", "- 1"):
+            if st.targets[0].id == t:
+                return "keep only the suffix connection"
+            if st.targets[0].id == h:
+                return "keep only the prefix connection"
+        # the decision moved into a helper that returns the two indices: `h, t = helper(h, hd, t, td)`
+        tg = st.targets[0] if isinstance(st, ast.Assign) and len(st.targets) == 1 else None
+        names = [e.id for e in tg.elts] if isinstance(tg, ast.Tuple) and all(isinstance(e, ast.Name) for e in tg.elts) else \
+            [tg.id] if isinstance(tg, ast.Name) else []
+        if isinstance(st, ast.Assign) and (h in names or t in names):
+            if not (isinstance(st.value, ast.Call) and all(isinstance(a_, ast.Name) for a_ in st.value.args) and not st.value.keywords):
+                raise Unsupported(f"`{src(st)[:60]}` rebinds a connection index in a way the decision table does not follow", st)
+            d = ctx.prog.resolve(m, st.value.func)
+            hq = ctx.prog.repo_qual(d) if d else None
+            if hq is None and isinstance(st.value.func, ast.Attribute):
+                hq = ctx.prog.find_method(ctx.prog.enclosing_class(q) or "", st.value.func.attr) if ctx.prog.enclosing_class(q) else None
+            if hq is None:
+                raise Unsupported(f"helper `{src(st.value.func)}` that rebinds a connection index is not resolved", st)
+            hm, hf = ctx.prog.func(hq)
+            params = [a_.arg for a_ in hf.args.args]
+            if len(params) != len(st.value.args):
+                raise Unsupported("helper call does not bind its parameters one to one", st)
+            ren = dict(zip(params, [a_.id for a_ in st.value.args]))
+
+            def atom_h(text):
+                import re as _re
+                return atom_of(_re.sub(r"[A-Za-z_][A-Za-z_0-9]*", lambda mo: ren.get(mo.group(0), mo.group(0)), text))
+
+            ret = Table(atom_h, lambda s_: None).run_function(hf, cur["assign"])
+            elts = list(ret.elts) if isinstance(ret, ast.Tuple) else [ret]
+            if ret is None or len(elts) != len(names):
+                raise Unsupported("value returned by the helper not recognised", st)
+            labs = []
+            for nm_, e_ in zip(names, elts):
+                txt_ = src(e_)
+                if txt_ in ("-1", "- 1"):
+                    if nm_ == t:
+                        labs.append("keep only the suffix connection")
+                    elif nm_ == h:
+                        labs.append("keep only the prefix connection")
+                elif not (isinstance(e_, ast.Name) and ren.get(e_.id, e_.id) == nm_):
+                    raise Unsupported(f"helper returns `{txt_}` for `{nm_}`", st)
+            return labs
+        return None
+
+    tab = Table(atom_of, marker_of)
+    atoms = ["same_particle", "head_found", "tail_found", "head_closer_or_tie", "single_particle_chain", "same_chain"]
+    n_rows, bad = 0, []
+    for vals in itertools.product((False, True), repeat=len(atoms)):
+        a = dict(zip(atoms, vals))
+        if a["same_particle"] and not a["same_chain"]:
+            continue  # the same particle is in the same chain
+        if a["same_particle"] and a["head_found"] != a["tail_found"]:
+            continue  # equal indices are found or missing together
+        n_rows += 1
+        cur["assign"] = a
+        got = tab.run_block(body, a)
+        want = []
+        if a["head_found"] and a["tail_found"] and a["same_chain"]:
+            want = ["keep only the suffix connection"] if a["head_closer_or_tie"] else ["keep only the prefix connection"]
+        if got != want:
+            bad.append((a, got, want))
+    ctx.count(n_rows, {"decision table rows": n_rows, "atoms": atoms})
+    if bad:
+        a, got, want = bad[0]
+        ctx.finding(q, body[0] if body else calls[1], "a finished chain that would be connected to ONE existing chain on both of its ends must keep only "
+                    f"the closer connection, for chains of any length: with {', '.join(k for k, v in a.items() if v)} the block does "
+                    f"{got or 'nothing'}, expected {want or 'nothing'} ({len(bad)} of {n_rows} rows of the decision table differ) -- the chain would "
+                    "close on itself and its order numbers no longer run 1..k", body[0] if body else calls[1], m)
+
+
 def _obligations():
     return [
+        Obligation("O19.8", "connection arbitration: both ends to the same chain -> only the closer connection is kept (decision table over the block's tests)", o198, floor=30),
         Obligation("O19.6", "per-tomogram subsets: get_motl_subset selects exactly feature == value (shared with C08)", _c08.o81, floor=10),
         Obligation("O19.7", "entry / exit sites: get_coordinates = (x,y,z) + shifts, nothing else (shared with C05)", _c05.o51, floor=9),
         Obligation("O19.5", "two-sided connection: the order offset for add_chain_prefix is read after add_chain_suffix renumbered the chain", o195, floor=1),
